@@ -70,6 +70,14 @@ pub fn suts() -> Vec<Sut> {
               expect: &[], makes_node: true },
         Sut { name: "jalr-two-operands", text: "jalr t0, 0", before: &["la t0, helper"], after: &["li a7, 10", "ecall", "helper:", "ret"],
               expect: &[], makes_node: true },
+        Sut { name: "unclosed-string", text: ".asciz \"abc", before: &[".data"], after: &[".text", "li a7, 10", "ecall"],
+              expect: &[], makes_node: false },
+        Sut { name: "unclosed-string-last-line", text: ".asciz \"abc", before: &["li a7, 10", "ecall", ".data"], after: &[],
+              expect: &[], makes_node: false },
+        Sut { name: "unclosed-char-last-line", text: "li t1, 'a", before: &["li a7, 10", "ecall"], after: &[],
+              expect: &[], makes_node: false },
+        Sut { name: "bad-string-escape", text: ".asciz \"a\\qb\"", before: &[".data"], after: &[".text", "li a7, 10", "ecall"],
+              expect: &[], makes_node: false },
         Sut { name: "stray-paren", text: "( t0", before: &[], after: EXIT,
               expect: &[("parse-unexpected-token", 0, 0)], makes_node: false },
     ]
@@ -167,7 +175,10 @@ pub fn build(l: &Layout, suts: &[Sut]) -> Built {
         t.push_str("   addi s1, s1, 0");
     }
     t.push_str(TRAILS[l.trail]);
-    t.push_str(nl);
+    // the statement under test is the last line when nothing follows it
+    if !(s.after.is_empty() && l.ending == Ending::NoFinalNewline) {
+        t.push_str(nl);
+    }
     for (i, line) in s.after.iter().enumerate() {
         t.push_str("    ");
         t.push_str(line);
